@@ -79,6 +79,27 @@ func C11(c *core.Ctx) {
 				c.Report(core.Finding{Sig: "defaults-direct:" + key, Detail: fmt.Sprintf("%s: %s — implicit %s", key, d, implicit), Replay: rep})
 			}
 			di, de := projDump(pi), projDump(pe)
+			// a caller that edits the dictionary of one load (LoadModelWithContext) changes nothing for the next load: the defaults
+			// filled in are values of that model alone.  Every dependency of the returned model is rewritten in place, then the
+			// implicit document is loaded again.
+			if n%3 == 0 {
+				if m, err := c08Model(wd, nil, implicit); err == nil {
+					svcs, _ := m["services"].(map[string]interface{})
+					for _, sv := range svcs {
+						deps, _ := sv.(map[string]interface{})["depends_on"].(map[string]interface{})
+						for _, dv := range deps {
+							if dm, ok := dv.(map[string]interface{}); ok {
+								dm["condition"], dm["required"], dm["restart"] = "service_healthy", false, false
+							}
+						}
+					}
+					if p2, e2 := safeLoad(wd, nil, []namedDoc{{Name: filepath.Join(wd, "compose.yaml"), Content: implicit}}); e2 != nil {
+						c.Report(core.Finding{Sig: "defaults-after-edit:" + key, Detail: fmt.Sprintf("%s: after the dictionary of an earlier load was edited, the same document no longer loads: %v", key, e2), Replay: rep})
+					} else if d2 := projDump(p2); d2 != di {
+						c.Report(core.Finding{Sig: "defaults-after-edit:" + key, Detail: fmt.Sprintf("%s: after the dependencies in the dictionary of an earlier load were edited in place, loading the same document again gives a different project: %s — %s", key, firstDiff(d2, di), implicit), Replay: rep})
+					}
+				}
+			}
 			if di != de {
 				c.Report(core.Finding{Sig: "defaults-differ:" + key, Detail: fmt.Sprintf("%s: implicit %s and explicit %s load to different projects: %s", key, implicit, explicit, firstDiff(di, de)), Replay: rep})
 			}
@@ -87,7 +108,7 @@ func C11(c *core.Ctx) {
 			if !c.Quick() || n%2 == 0 {
 				pim, _ := plainOf(cs["implicit"]).(map[string]interface{})
 				pex, _ := plainOf(cs["explicit"]).(map[string]interface{})
-				for _, pl := range []string{"named", "override", "extends", "extends-refined", "extends-other-dir", "included", "override-onto-rich", "extends-onto-rich"} {
+				for _, pl := range []string{"named", "override", "extends", "extends-refined", "extends-other-dir", "included", "override-onto-rich", "extends-onto-rich", "override-onto-explicit"} {
 					if strings.HasSuffix(pl, "-onto-rich") {
 						// only the short list leaves its defaults implicit when it lands on an earlier definition: a mapping entry
 						// that omits a key does not mention it, and what a later side does not mention is kept (C04)
@@ -98,6 +119,10 @@ func C11(c *core.Ctx) {
 					}
 					li := c11Place(wd, "i", pl, pim)
 					le := c11Place(wd, "e", pl, pex)
+					if pl == "override-onto-explicit" {
+						// the main file is the explicit document in both forms; the override repeats service a's attributes, implicit or explicit
+						li, le = c11Onto(wd, "i", pex, pim), c11Onto(wd, "e", pex, pex)
+					}
 					if li == nil || le == nil {
 						continue
 					}
@@ -251,6 +276,27 @@ func c11Clone(v interface{}) interface{} {
 	var out interface{}
 	_ = json.Unmarshal(b, &out)
 	return out
+}
+
+// c11Onto: the explicit document as the main file, and service a's attributes of doc (all but the image) again in an override file.
+func c11Onto(wd, tag string, explicit, doc map[string]interface{}) []namedDoc {
+	if doc == nil || explicit == nil {
+		return nil
+	}
+	svcs, _ := doc["services"].(map[string]interface{})
+	a, _ := svcs["a"].(map[string]interface{})
+	rest := map[string]interface{}{}
+	for k, v := range a {
+		if k != "image" {
+			rest[k] = v
+		}
+	}
+	if len(rest) == 0 {
+		return nil
+	}
+	js := func(v interface{}) string { b, _ := json.Marshal(v); return string(b) }
+	over := map[string]interface{}{"services": map[string]interface{}{"a": rest}}
+	return []namedDoc{{Name: filepath.Join(wd, tag+"-main.yaml"), Content: js(explicit)}, {Name: filepath.Join(wd, tag+"-over.yaml"), Content: js(over)}}
 }
 
 // c11Place writes the document in one of the placements and returns the files to load (nil: not applicable).
